@@ -12,18 +12,7 @@
 
 use crate::bbi::Value;
 
-/// PRE: both intervals non-empty, they overlap (share at least one base), values finite.
-/// `one.end > two.start` is what merge_into itself checks (it panics otherwise);
-/// `two.end > one.start` and the two non-emptiness facts are what the call site in
-/// insert_into_queue adds.  All four are needed (NOTES.md gives a witness for each).
-fn pre(one: &Value, two: &Value) -> bool {
-    one.start < one.end
-        && two.start < two.end
-        && one.end > two.start
-        && two.end > one.start
-        && one.value.is_finite()
-        && two.value.is_finite()
-}
+include!("spec.rs");
 
 fn sym_value() -> Value {
     Value {
@@ -31,68 +20,6 @@ fn sym_value() -> Value {
         end: kani::any(),
         value: kani::any(),
     }
-}
-
-fn umin(a: u32, b: u32) -> u32 {
-    if a < b { a } else { b }
-}
-fn umax(a: u32, b: u32) -> u32 {
-    if a > b { a } else { b }
-}
-
-/// Walk the up-to-4 pieces in tuple order, skipping None.  Returns
-/// (all non-empty, contiguous, first start, last end, value of the piece containing p,
-///  p was found in exactly one piece).
-struct Walk {
-    nonempty: bool,
-    contiguous: bool,
-    first_start: u32,
-    last_end: u32,
-    hits: u8,
-    v_at_p: f32,
-}
-
-fn walk(r: &(Value, Option<Value>, Option<Value>, Option<Value>), p: u32) -> Walk {
-    let mut w = Walk {
-        nonempty: r.0.start < r.0.end,
-        contiguous: true,
-        first_start: r.0.start,
-        last_end: r.0.end,
-        hits: 0,
-        v_at_p: 0.0,
-    };
-    if r.0.start <= p && p < r.0.end {
-        w.hits += 1;
-        w.v_at_p = r.0.value;
-    }
-    if let Some(x) = r.1 {
-        w.nonempty = w.nonempty && x.start < x.end;
-        w.contiguous = w.contiguous && x.start == w.last_end;
-        w.last_end = x.end;
-        if x.start <= p && p < x.end {
-            w.hits += 1;
-            w.v_at_p = x.value;
-        }
-    }
-    if let Some(x) = r.2 {
-        w.nonempty = w.nonempty && x.start < x.end;
-        w.contiguous = w.contiguous && x.start == w.last_end;
-        w.last_end = x.end;
-        if x.start <= p && p < x.end {
-            w.hits += 1;
-            w.v_at_p = x.value;
-        }
-    }
-    if let Some(x) = r.3 {
-        w.nonempty = w.nonempty && x.start < x.end;
-        w.contiguous = w.contiguous && x.start == w.last_end;
-        w.last_end = x.end;
-        if x.start <= p && p < x.end {
-            w.hits += 1;
-            w.v_at_p = x.value;
-        }
-    }
-    w
 }
 
 // ---------------------------------------------------------------------------------------
@@ -152,42 +79,41 @@ fn merge_into_queue_shape() {
 // ---------------------------------------------------------------------------------------
 // L: value_at_base (quick form) — for a symbolic base p in the union, the piece that
 // contains p carries: one.value + two.value where both inputs cover p, one.value where
-// only `one` does, two.value where only `two` does.  Comparison is numeric f32 `==`
-// (the property speaks of the per-base *value*, so -0.0 == +0.0).
+// only `one` does, two.value where only `two` does (spec.rs: value_ok_by_cases).
+// Comparison is numeric f32 `==`: the property speaks of the per-base *value*, so
+// -0.0 == +0.0 (the code returns `one.value` = -0.0 where the IEEE sum -0.0 + 0.0 is +0.0).
 // Quick form: the both-covered expectation is written by cases on the code's own
-// `== 0.0` tests — x where the other addend is (+/-)0.0, else the f32 sum — so CBMC never has
-// to solve a float addition against something that is not the same addition.  The case
-// split is sound because x + (+/-0.0) == x numerically for every finite x: that fact is
-// harness `f32_add_zero_identity` below (proved bit-precisely, also quick).
-#[kani::proof]
-fn merge_into_value_at_base() {
+// `== 0.0` tests — x where the other addend is (+/-)0.0, else the f32 sum — so CBMC only has
+// to match the code's float additions against the same addition.  The case split is sound
+// because x + (+/-0.0) == x numerically for every finite x: harness f32_add_zero_identity.
+// One harness per order of the two starts (u32 trichotomy: the three assumptions are
+// exhaustive); a single harness over all shapes needs ~280 s, the three take 25-35 s each.
+fn value_at_base(start_rel: u8) {
     let one = sym_value();
     let two = sym_value();
     let p: u32 = kani::any();
     kani::assume(pre(&one, &two));
     kani::assume(umin(one.start, two.start) <= p && p < umax(one.end, two.end));
+    kani::assume(start_relation(&one, &two) == start_rel);
     kani::cover!(true, "reach_value_at_base");
-    let sum = one.value + two.value;
     let r = super::merge_into(one, two);
     let w = walk(&r, p);
     assert!(w.hits == 1, "value_at_base/p lies in exactly one piece");
-    let in1 = one.start <= p && p < one.end;
-    let in2 = two.start <= p && p < two.end;
-    assert!(in1 || in2, "value_at_base/union of overlapping intervals has no hole");
-    if in1 && in2 {
-        let expect = if two.value == 0.0 {
-            one.value
-        } else if one.value == 0.0 {
-            two.value
-        } else {
-            sum
-        };
-        assert!(w.v_at_p == expect, "value_at_base/both cover p: value is one.value + two.value");
-    } else if in1 {
-        assert!(w.v_at_p == one.value, "value_at_base/only one covers p: value is one.value");
-    } else {
-        assert!(w.v_at_p == two.value, "value_at_base/only two covers p: value is two.value");
-    }
+    assert!(covers(&one, p) || covers(&two, p), "value_at_base/union of overlapping intervals has no hole");
+    assert!(value_ok_by_cases(&one, &two, p, w.v_at_p), "value_at_base/value at p is the sum of the inputs' values at p");
+}
+
+#[kani::proof]
+fn merge_into_value_one_starts_first() {
+    value_at_base(0)
+}
+#[kani::proof]
+fn merge_into_value_same_start() {
+    value_at_base(1)
+}
+#[kani::proof]
+fn merge_into_value_two_starts_first() {
+    value_at_base(2)
 }
 
 // Lemma used by the quick form: adding a zero of either sign is the numeric identity on
@@ -217,8 +143,6 @@ fn merge_into_value_sum_bitprecise() {
     kani::cover!(true, "reach_value_sum_bitprecise");
     let r = super::merge_into(one, two);
     let w = walk(&r, p);
-    let a: f32 = if one.start <= p && p < one.end { one.value } else { 0.0 };
-    let b: f32 = if two.start <= p && p < two.end { two.value } else { 0.0 };
     assert!(w.hits == 1, "value_sum/p lies in exactly one piece");
-    assert!(w.v_at_p == a + b, "value_sum/value at p == sum of the inputs' values at p");
+    assert!(w.v_at_p == arithmetic_sum_at(&one, &two, p), "value_sum/value at p == sum of the inputs' values at p");
 }
